@@ -43,6 +43,13 @@ class Z3Conv:
             if info.get('lo') is not None:
                 self.side.append(v >= int(info['lo']))
             self.vars[name] = v
+            d = info.get('defn')
+            if d is not None and d[0] in ('round', 'floor'):
+                x = self.conv(d[1])
+                if d[0] == 'round':
+                    self.side += [2 * (x - v) <= 1, 2 * (x - v) >= -1]
+                else:
+                    self.side += [v <= x, x < v + 1]
             return v
         v = z3.Real(name)
         self.vars[name] = v
@@ -64,6 +71,50 @@ class Z3Conv:
             elif d[0] == 'expr':
                 self.side.append(v == x)
         return v
+
+    def scaled_difference(self, n):
+        """lhs - rhs of a comparison as an integer-coefficient polynomial with the common
+        content removed, when its normal form has a constant positive denominator
+        (keeps 1e12-type scale factors away from the solver)"""
+        from . import normal
+        try:
+            fr = normal.convert(core.sub(n.args[0], n.args[1]))
+        except Exception:
+            return None
+        if fr.m or fr.f or len(fr.n) > 400:
+            return None
+        names = core.CTX.__dict__.get('_vname', {})
+        g = 0
+        from math import gcd
+        for c in fr.n.values():
+            g = gcd(g, c)
+        g = g or 1
+        total = None
+        for m, c in fr.n.items():
+            term = None
+            for v, e in m:
+                key = names.get(v)
+                if key is None:
+                    return None
+                if key in ('SQRT3', 'sqrt3'):
+                    x = self.sqrt3()
+                elif key.startswith('v_'):
+                    x = self.var(key[2:])
+                elif key.startswith('o_'):
+                    x = self.conv(core.CTX.nodes[int(key[2:])])
+                else:
+                    return None
+                for _ in range(e):
+                    term = x if term is None else term * x
+            coef = c // g
+            if term is None:
+                term = z3.IntVal(coef)
+            elif coef != 1:
+                term = coef * term
+            total = term if total is None else total + term
+        if total is None:
+            total = z3.IntVal(0)
+        return total
 
     def uf(self, name, arity):
         f = self.ufs.get((name, arity))
@@ -102,18 +153,12 @@ class Z3Conv:
             elif op == 'fn':
                 f = self.uf('fn_' + n.val, len(a))
                 r = f(*[_real(x) for x in a])
-            elif op == 'lt':
-                r = a[0] < a[1]
-            elif op == 'le':
-                r = a[0] <= a[1]
-            elif op == 'gt':
-                r = a[0] > a[1]
-            elif op == 'ge':
-                r = a[0] >= a[1]
-            elif op == 'eq':
-                r = a[0] == a[1]
-            elif op == 'ne':
-                r = a[0] != a[1]
+            elif op in ('lt', 'le', 'gt', 'ge', 'eq', 'ne'):
+                d = self.scaled_difference(n)
+                if d is not None:
+                    a = [d, z3.IntVal(0) if z3.is_int(d) else z3.RealVal(0)]
+                r = {'lt': lambda: a[0] < a[1], 'le': lambda: a[0] <= a[1], 'gt': lambda: a[0] > a[1],
+                     'ge': lambda: a[0] >= a[1], 'eq': lambda: a[0] == a[1], 'ne': lambda: a[0] != a[1]}[op]()
             elif op == 'not':
                 r = z3.Not(a[0])
             elif op == 'and':
@@ -168,7 +213,18 @@ def check(conds, timeout_ms=3000, want_model=False, external=False):
     s.set('timeout', int(timeout_ms) * 5)
     for f in cv.side + fs:
         s.add(f)
-    r = s.check()
+    import threading
+    # z3 does not always honour its own limits (integer cuts with large coefficients):
+    # interrupt it from a watchdog thread
+    wd = threading.Timer(max(2.0, timeout_ms * 6 / 1000.0), s.ctx.interrupt)
+    wd.daemon = True
+    wd.start()
+    try:
+        r = s.check()
+    except z3.Z3Exception:
+        r = z3.unknown
+    finally:
+        wd.cancel()
     status = 'sat' if r == z3.sat else ('unsat' if r == z3.unsat else 'unknown')
     info = dict(backend=f'z3-{z3.get_version_string()}', seconds=round(time.time() - t0, 3))
     model = None
